@@ -271,6 +271,171 @@ def stage_edges(out, name, module, constants, invariants, properties, replay_cmd
     return st
 
 
+def stage_scenarios(out, name, module, constants, invariants, properties=(), workers=12, timeout=1800):
+    """TLC model check that prints SCN lines; returns the de-duplicated scenario file."""
+    wd = os.path.join(WORK, out.prop)
+    os.makedirs(wd, exist_ok=True)
+    cfg = os.path.join(wd, name + ".cfg")
+    write_cfg(cfg, constants, invariants, properties, action_constraint="EmitScenario")
+    raw = os.path.join(wd, name + ".tlcout")
+    r = run_tlc(module, cfg, raw, os.path.join(wd, name + ".meta"), workers=workers, timeout=timeout)
+    if not r["ok"]:
+        log(r["tail"][-3000:])
+        raise ToolError("TLC did not complete cleanly on %s/%s" % (module, name))
+    scn = os.path.join(wd, name + ".scn")
+    seen = set()
+    with open(raw, errors="replace") as f, open(scn, "w") as g:
+        for line in f:
+            if line.startswith('<<"SCN"') and line not in seen:
+                seen.add(line)
+                g.write(line)
+    os.remove(raw)
+    out.states += r["distinct"]
+    out.transitions += r["states"]
+    st = {"stage": name, "module": module, "constants": {k: (sorted(v) if isinstance(v, (set, frozenset)) else v) for k, v in constants.items()},
+          "tlc_states_generated": r["states"], "tlc_distinct_states": r["distinct"], "tlc_seconds": r["seconds"],
+          "invariants": list(invariants), "scenarios": len(seen)}
+    out.stages.append(st)
+    return scn
+
+
+RUN_FIELD = re.compile(r'"run":(\d+)[,}]')
+ERR_LINE = re.compile(r'^<<"ERR", (".*")>>$')
+DONE_LINE = re.compile(r'^<<"DONE", (\d+), (\d+)>>$')
+
+
+def validate_traces(out, name, trace_module, trace_cfg, jobs, why_filter=lambda w: True, timeout=1800, stack="1g"):
+    """jobs: list of dicts(label, trace, scenarios, profile, replay). Runs one TLC per trace in parallel.
+    Every ERR line whose reason passes `why_filter` becomes a violation carrying the failing run."""
+    wd = os.path.join(WORK, out.prop)
+    procs = []
+    for j in jobs:
+        n_events = sum(1 for _ in open(j["trace"]))
+        j["events"] = n_events
+        if n_events == 0:
+            raise ToolError("empty trace " + j["trace"])
+        outp = os.path.join(wd, "%s.%s.tlcout" % (name, j["label"]))
+        meta = os.path.join(wd, "%s.%s.meta" % (name, j["label"]))
+        cmd = ["java", "-Xss" + stack, "-XX:+UseG1GC", "-Xmx6g", "-cp", JAR, "tlc2.TLC", "-workers", "1", "-metadir", meta,
+               "-cleanup", "-noGenerateSpecTE", "-config", trace_cfg, trace_module]
+        e = dict(os.environ)
+        e["TRACE"] = j["trace"]
+        f = open(outp, "w")
+        procs.append((j, outp, meta, f, subprocess.Popen(cmd, cwd=SPEC, stdout=f, stderr=subprocess.STDOUT, env=e), time.time()))
+    st = {"stage": name, "module": trace_module, "traces": []}
+    for j, outp, meta, f, p, t0 in procs:
+        try:
+            p.wait(timeout=timeout)
+        except subprocess.TimeoutExpired:
+            p.kill()
+            raise ToolError("trace validation timeout on " + j["label"])
+        f.close()
+        shutil.rmtree(meta, ignore_errors=True)
+        done = None
+        errs = []
+        tail = []
+        for line in open(outp, errors="replace"):
+            line = line.rstrip("\n")
+            m = ERR_LINE.match(line)
+            if m:
+                errs.append(json.loads(json.loads(m.group(1))))
+                continue
+            m = DONE_LINE.match(line)
+            if m:
+                done = (int(m.group(1)), int(m.group(2)))
+                continue
+            tail.append(line)
+        if done is None or done[0] != j["events"]:
+            log("\n".join(tail[-40:]))
+            raise ToolError("trace %s was not consumed completely (%s of %d events): the trace specification or the "
+                            "recorder is broken" % (j["label"], done, j["events"]))
+        runs = sum(1 for l in open(j["trace"]) if '"ev":"reset"' in l)
+        out.validated += runs
+        out.judged += j["events"]
+        st["traces"].append({"label": j["label"], "events": j["events"], "runs": runs, "rejected_runs": len(errs),
+                             "seconds": round(time.time() - t0, 1)})
+        if not out.samples:
+            with open(j["trace"]) as tf:
+                out.samples = [json.loads(next(tf)) for _ in range(min(6, j["events"]))]
+        # keep a few failing runs per reason; fetch their events in ONE pass over the trace
+        kept, per_why = [], {}
+        for e in errs:
+            if not why_filter(e["why"]):
+                continue
+            per_why[e["why"]] = per_why.get(e["why"], 0) + 1
+            if per_why[e["why"]] <= 5:
+                kept.append(e)
+        st["traces"][-1]["rejections_by_reason"] = per_why
+        if kept:
+            want = {e["run"] for e in kept}
+            scen = [l for l in open(j["scenarios"]) if l.startswith("<<") or l.startswith("{")]
+            events = {r: [] for r in want}
+            for l in open(j["trace"]):
+                m = RUN_FIELD.search(l)
+                if m and int(m.group(1)) in want and len(events[int(m.group(1))]) < 60:
+                    events[int(m.group(1))].append(json.loads(l))
+            for e in kept:
+                ops = decode_scn(scen[e["run"] - 1]) if e["run"] - 1 < len(scen) else None
+                out.add_violation({"sig": "%s:%s" % (j.get("sigprefix", name), e["why"]), "why": e["why"], "run": e["run"],
+                                   "scenario": ops, "events": events[e["run"]], "label": j["label"], "ty": j.get("ty"),
+                                   "rejected_runs_with_this_reason": per_why[e["why"]]},
+                                  name, j["profile"], j["replay"])
+        os.remove(outp)
+    out.stages.append(st)
+    return st
+
+
+def decode_scn(line):
+    line = line.strip()
+    if line.startswith('<<"SCN", '):
+        return json.loads(json.loads(line[len('<<"SCN", '):-2]))
+    return json.loads(line)
+
+
+def profile_label(prof):
+    return {"dev": "dev(overflow-checks,debug-assertions)", "release": "release(wrapping)"}[prof]
+
+
+def huffman_jobs(out, name, scn, tys=("u8", "u16"), nslots=2):
+    wd = os.path.join(WORK, out.prop)
+    jobs = []
+    for ty in tys:
+        for prof in ("dev", "release"):
+            tr = os.path.join(wd, "%s.%s.%s.ndjson" % (name, ty, prof))
+            rc, o = sh([BIN[prof], "huff-run", scn, "--ty", ty, "--out", tr, "--nslots", str(nslots)], timeout=1800)
+            if rc != 0:
+                log(o[-2000:])
+                raise ToolError("huff-run failed")
+            jobs.append({"label": "%s-%s" % (ty, prof), "trace": tr, "scenarios": scn, "profile": profile_label(prof),
+                         "replay": "huffman", "ty": ty, "sigprefix": "huffman"})
+    return jobs
+
+
+HUFF_INV = ["Tiling", "CodeSane", "RefuseExact", "StatsExact"]
+
+
+def huffman_property(out, q, seed, why_filter):
+    c = {"NSlots": 2, "MaxRaw": 1 if q else 2, "MaxMerge": 2, "MaxCoded": 2, "MaxClear": 1,
+         "ItemSel": "quick" if q else "thorough", "MaxCodeLen": 5, "Emit": True}
+    scn = stage_scenarios(out, "model", "HuffmanMC.tla", c, HUFF_INV)
+    tcfg = os.path.join(SPEC, "TraceHuffman.cfg")
+    jobs = huffman_jobs(out, "model", scn)
+    validate_traces(out, "model-traces", "TraceHuffman.tla", tcfg, jobs, why_filter)
+    # beyond the bounds: seeded random scenarios over large alphabets and skewed profiles
+    wd = os.path.join(WORK, out.prop)
+    jobs = []
+    for ty in ("u8", "u16"):
+        g = os.path.join(wd, "random.%s.scn" % ty)
+        rc, o = sh([BIN["release"], "huff-gen", "--seed", str(seed * 1000 + (1 if ty == "u8" else 2)), "--count",
+                    str(40 if q else 400), "--ty", ty, "--out", g])
+        if rc != 0:
+            raise ToolError("huff-gen failed")
+        jobs += huffman_jobs(out, "random", g, tys=(ty,), nslots=3)
+    validate_traces(out, "random-traces", "TraceHuffman.tla", tcfg, jobs, why_filter)
+    for j in glob.glob(os.path.join(wd, "*.ndjson")):
+        os.remove(j)
+
+
 # --------------------------------------------------------------------------------------------
 # property table
 
@@ -420,6 +585,8 @@ def run_property(prop, tier, seed):
         stack_stage(out, "flatstack", prop, stack_names(), 4, 0, 3, ["copy", "extend", "clear", "from_iter"])
     elif prop == "C20":
         region_stage(out, "forms", prop, allnames, 2, 3 if q else 4, 0, 3, ["push", "push_from"])
+    elif prop == "C06":
+        huffman_property(out, q, seed, lambda w: not w.startswith("cmp"))
     else:
         raise ToolError("property %s has no check yet" % prop)
     out.finish()
@@ -441,6 +608,8 @@ def do_replay(prop, path):
     kind = r.get("replay_kind", "replay")
     wd = os.path.join(WORK, "replay")
     os.makedirs(wd, exist_ok=True)
+    if kind in ("huffman", "dictionary"):
+        return do_replay_trace(prop, path, r, kind, wd)
     edge = {"subj": r.get("subj"), "kind": r.get("kind"), "path": r["path"],
             "res": r.get("expected", {}).get("res"), "obs": r.get("expected", {}).get("obs")}
     ef = os.path.join(wd, "edge.ndjson")
@@ -459,6 +628,41 @@ def do_replay(prop, path):
             bad = True
             log("observed: " + json.dumps(v.get("detail", v.get("observed")))[:3000])
             log("why: " + v.get("why", ""))
+    if bad:
+        log("VIOLATION property=%s replay=%s" % (prop, path))
+        sys.exit(1)
+    log("replay does not reproduce on the current tree")
+    sys.exit(0)
+
+
+def do_replay_trace(prop, path, r, kind, wd):
+    scn = os.path.join(wd, "one.scn")
+    open(scn, "w").write(json.dumps({"ops": r["scenario"]["ops"], "nslots": r["scenario"].get("nslots", 3)}) + "\n")
+    bad = False
+    module, cfg, runner = {"huffman": ("TraceHuffman.tla", "TraceHuffman.cfg", "huff-run"),
+                           "dictionary": ("TraceDict.tla", "TraceDict.cfg", "dict-run")}[kind]
+    for prof in ("dev", "release"):
+        tr = os.path.join(wd, "one.%s.ndjson" % prof)
+        args = [BIN[prof], runner, scn, "--out", tr]
+        if kind == "huffman":
+            args += ["--ty", r.get("ty") or "u8", "--nslots", "3"]
+        rc, o = sh(args)
+        if rc != 0:
+            die_tool(runner + " failed: " + o[-1000:])
+        e = dict(os.environ)
+        e["TRACE"] = tr
+        outp = os.path.join(wd, "one.%s.tlcout" % prof)
+        with open(outp, "w") as f:
+            subprocess.run(["java", "-Xss1g", "-cp", JAR, "tlc2.TLC", "-workers", "1", "-metadir", os.path.join(wd, "meta"),
+                            "-cleanup", "-noGenerateSpecTE", "-config", os.path.join(SPEC, cfg), module],
+                           cwd=SPEC, stdout=f, stderr=subprocess.STDOUT, env=e)
+        log("--- profile %s: recorded events" % profile_label(prof))
+        for l in open(tr):
+            log("   " + l.rstrip()[:400])
+        for l in open(outp):
+            if l.startswith('<<"ERR"'):
+                bad = True
+                log("   specification rejects: " + l.strip())
     if bad:
         log("VIOLATION property=%s replay=%s" % (prop, path))
         sys.exit(1)
